@@ -57,12 +57,26 @@ NONE_TOK = 3
 JUNK = 50
 
 
+# equal-but-not-identical renderings of some tokens (1 == 1.0 == True, fresh str / tuple objects): the model
+# identifies a token with its equality class, so code that compares with `is` or relies on the type is exposed
+ALT = {1: [1, 1.0, True], 8: [-3, -3.0], 13: [99, 99.0], 2: [(1, 2), (1.0, 2), (True, 2.0)], 5: [2.5],
+       14: [('t', None)], 10: [()]}
+_variant = [0]
+
+
 def obj(t):
     if t >= 900:
         return [t - 900]
     if t >= JUNK:
         return "junk%d" % t
-    return OBJ[t]
+    _variant[0] += 1
+    if t in ALT:
+        alts = ALT[t]
+        return alts[_variant[0] % len(alts)]
+    o = OBJ[t]
+    if isinstance(o, str) and _variant[0] % 2:
+        return "".join(list(o))          # an equal str object that is not the interned literal
+    return o
 
 
 _INV = None
@@ -765,6 +779,7 @@ def run_fd(case):
 
 
 def run_impl(case):
+    _variant[0] = 0
     if case["kind"] == "oto":
         return run_oto(case)
     if case["kind"] == "m2m":
